@@ -14,7 +14,7 @@ RULE = ("(A) token-level: 1-3 mutations (delete, duplicate, swap adjacent / dist
         "text and of the 13 repository programs; (C, thorough) atheris coverage-guided fuzzing of raw text. Oracle: an "
         "independent lexer + Earley recogniser of the documented grammar; reject => ExperimentEvaluator(text) must raise "
         "and parse_source(text) must raise or return None, and recompile(text) on a live evaluator holding the unmutated original must raise too. Accepted mutants are only counted (C07's business), ambiguous "
-        "ones (single word elseif, unterminated / nested block comment, keyword-prefix readings that disagree) are skipped "
+        "ones (single word elseif, unterminated / nested block comment, non-ASCII decimal digits, keyword-prefix readings that disagree) are skipped "
         "and counted - but still compiled, after which (and after every rejected text containing /*) fixed invalid canaries such as "
         "'junk */ def e {...}' must still be rejected (compiling is stateless). Non-trivial = mutated text rejected by the reference; distinct by text.")
 ASSUMPTIONS = [
@@ -179,6 +179,10 @@ FIXED = [
     'def e { if a === 1 { return "x" weighted 1 } }',
     'def e { if a == 1 { return "x" weighted 1 } else if { return "y" weighted 1 } }',
     'def e { return "x" weighted 1 } /',
+    'def e \uff5b return "x" weighted 1 \uff5d', 'def e { if a \uff1d\uff1d 1 { return "x" weighted 1 } }', 'def e { if a \u2a75 1 { return "x" weighted 1 } }',
+    'def e { if a \u33cc (1, 2) { return "x" weighted 1 } }', 'def e { return "x" weighted \u00b2 }', '\uff44\uff45\uff46 e { return "x" weighted 1 }',
+    'def \uff45 { return "x" weighted 1 }', 'def e { return \u201cx\u201d weighted 1 }',
+    '\ufeffdef e { return "x" weighted 1 }', 'def e { return "x" weighted 1 }\u200b',
     'def e { if a in ( 1 , 2 , ) { return "x" weighted 1 } }',
     'def e { if a in (1,) { return "x" weighted 1 } }',
     'def e { if a in ( , 1 ) { return "x" weighted 1 } }',
